@@ -26,10 +26,10 @@
 // ---- sanitizer defaults (non-inline, used; defined here because this file is never instrumented,
 // so they can run before the sanitizer runtime is initialised) ----------------------------------
 extern "C" __attribute__((used)) const char *__asan_default_options() {
-  return "exitcode=77:detect_leaks=0:abort_on_error=0:allocator_may_return_null=1:detect_stack_use_after_return=0:handle_segv=1:handle_abort=0";
+  return "exitcode=77:detect_leaks=0:abort_on_error=0:allocator_may_return_null=1:detect_stack_use_after_return=0:handle_segv=1:handle_abort=1";
 }
 extern "C" __attribute__((used)) const char *__tsan_default_options() {
-  return "exitcode=66:report_thread_leaks=0:detect_deadlocks=0:report_signal_unsafe=0:halt_on_error=1:second_deadlock_stack=0:report_destroy_locked=0:history_size=4";
+  return "exitcode=66:report_thread_leaks=0:detect_deadlocks=0:report_signal_unsafe=0:halt_on_error=1:second_deadlock_stack=0:report_destroy_locked=0:history_size=4:handle_abort=1";
 }
 extern "C" __attribute__((used)) const char *__ubsan_default_options() { return "halt_on_error=1:print_stacktrace=1"; }
 
